@@ -483,8 +483,11 @@ ElemNumber::getCountMatchPattern(
         {
             const GetCachedString   theMatchPatternString(executionContext);
 
+            // The argument of the node test must be a literal...
             theMatchPatternString.get() = s_piString;
+            theMatchPatternString.get().append(1, XalanUnicode::charApostrophe);
             theMatchPatternString.get().append(contextNode->getNodeName());
+            theMatchPatternString.get().append(1, XalanUnicode::charApostrophe);
             theMatchPatternString.get().append(1, XalanUnicode::charRightParenthesis);
 
             countMatchPattern = executionContext.createMatchPattern(
@@ -1780,7 +1783,7 @@ static XalanDOMString   s_staticSlashString(XalanMemMgrs::getDummyMemMgr());
 
 const XalanDOMChar      ElemNumber::s_atString[] =
 {
-    XalanUnicode::charAmpersand,
+    XalanUnicode::charCommercialAt,
     0
 };
 
